@@ -259,3 +259,74 @@ func isLoadPrimitive(c *Ctx, f *ssa.Function, depth int) bool {
 	}
 	return direct
 }
+
+// ---- REFLECTSET -----------------------------------------------------------------------
+
+func init() {
+	Register(&Rule{ID: "REFLECTSET", Props: []string{"C01"}, Min: 0,
+		Doc: "reflect.Value.Set(reflect.ValueOf(x)) panics when x is a nil interface (ValueOf(nil) is the zero Value): wherever a stored value is copied into the caller's out-parameter this way, x is known non-nil on every path (an entry whose value is nil is a valid entry — set-like trees), and the out-parameter itself was tested non-nil.",
+		Run: runREFLECTSET})
+}
+
+func runREFLECTSET(c *Ctx) {
+	P := c.P
+	n := 0
+	valueOfArg := func(v ssa.Value) (ssa.Value, *ssa.Call) {
+		// through .Elem() etc. back to reflect.ValueOf(x)
+		for i := 0; i < 4; i++ {
+			call, ok := v.(*ssa.Call)
+			if !ok {
+				return nil, nil
+			}
+			sc := ir.Callee(call.Call)
+			if sc == nil {
+				return nil, nil
+			}
+			if sc.String() == "reflect.ValueOf" {
+				return call.Call.Args[0], call
+			}
+			if sc.Pkg == nil || sc.Pkg.Pkg.Path() != "reflect" || len(call.Call.Args) == 0 {
+				return nil, nil
+			}
+			v = call.Call.Args[0]
+		}
+		return nil, nil
+	}
+	for _, fn := range P.Funcs {
+		if fn.Pkg.Pkg.Path() != ir.MastPath {
+			continue
+		}
+		for _, ci := range CallsOf(fn) {
+			call, ok := ci.(*ssa.Call)
+			if !ok {
+				continue
+			}
+			sc := ir.Callee(call.Call)
+			if sc == nil || sc.String() != "(reflect.Value).Set" || len(call.Call.Args) != 2 {
+				continue
+			}
+			n++
+			pos := P.InstrPos(call)
+			for i, role := range []string{"destination", "source"} {
+				x, vo := valueOfArg(call.Call.Args[i])
+				if x == nil {
+					c.Undecided(fn, pos, "reflect Set "+role, "cannot trace the "+role+" of Set back to reflect.ValueOf")
+					continue
+				}
+				x = ir.Strip(x)
+				what := fmt.Sprintf("%s of reflect Set in %s: %s", role, ir.FuncName(fn), pathDesc(ir.Sym(x)))
+				if ok, why := ir.GuardedNonNil(x, vo); ok {
+					c.OK(pos, what, why, false)
+				} else if ir.FlowNonNil(x, vo) {
+					c.OK(pos, what, "tested non-nil on every path", false)
+				} else {
+					c.Violation(fn, pos, role+" of reflect Set may be a nil interface",
+						"reflect.ValueOf(nil) is the zero Value, and Set / Elem on it panics: a lookup of an entry whose stored value is nil (a set-like tree) with a non-nil out-parameter crashes instead of reporting the entry")
+				}
+			}
+		}
+	}
+	if n == 0 {
+		c.Note("no reflect.Value.Set in the tree package: nothing to check")
+	}
+}
